@@ -255,24 +255,22 @@ class _AsyncioReadWriteLock(ReadWriteLock):
     def subsystem(self) -> str:
         return 'asyncio'
 
-    async def _acquire_read(self) -> bool:
-        async with self._read_lock:
-            self._counter += 1
-            return self._counter == 1
-
-    async def _release_read(self) -> bool:
-        async with self._read_lock:
-            self._counter -= 1
-            return self._counter == 0
-
     @asynccontextmanager
     async def read_lock(self) -> AsyncIterator[None]:
-        if await self._acquire_read():
-            await self._write_lock.acquire()
+        # The read lock is held while the first reader waits for the write
+        # lock, so that later readers queue up behind it instead of entering
+        # alongside an active writer. The counter is only incremented once
+        # the write lock is held, and decremented without awaiting, so that
+        # cancellation cannot leave it out of step.
+        async with self._read_lock:
+            if self._counter == 0:
+                await self._write_lock.acquire()
+            self._counter += 1
         try:
             yield
         finally:
-            if await self._release_read():
+            self._counter -= 1
+            if self._counter == 0:
                 self._write_lock.release()
 
     @asynccontextmanager
